@@ -4,15 +4,12 @@ V = os.path.dirname(os.path.dirname(os.path.abspath(__file__)))
 res = {}
 for f in sorted(glob.glob(os.path.join(V, 'out', 'matrix*.log')), key=os.path.getmtime):
     for ln in open(f):
-        m = re.match(r'(\S+) (C\d+) (DETECTED|MISSED|ERR) (\{.*\})', ln)
+        m = re.match(r'(\S+) (C\d+) (DETECTED|MISSED|ERR)', ln)
         if not m:
             continue
-        i, p, verdict, d = m.groups()
-        try:
-            d = ast.literal_eval(d)
-        except Exception:
-            d = {}
-        res.setdefault(i, {})[p] = dict(verdict=verdict, wall_s=d.get('wall'))
+        i, p, verdict = m.groups()
+        w = re.search(r"'wall': (\d+)", ln)
+        res.setdefault(i, {})[p] = dict(verdict=verdict, wall_s=int(w.group(1)) if w else None)
 json.dump(res, open(os.path.join(V, 'seeded', 'RESULTS.json'), 'w'), indent=1, sort_keys=True)
 rows = []
 for i in sorted(os.listdir(os.path.join(V, 'seeded'))):
